@@ -476,15 +476,33 @@ class CInterp:
         return tbl.get(name)
 
     def _sse_builtin(self, name, a):
+        if name == "__builtin_ia32_shufps":
+            imm = a[2] if isinstance(a[2], int) else self.ex.concrete_int(term(a[2]))
+            if imm is None:
+                raise Unsupported("shufps with a symbolic immediate")
+            x, y = a[0].v, a[1].v
+            return FV([x[imm & 3], x[(imm >> 2) & 3], y[(imm >> 4) & 3], y[(imm >> 6) & 3]])
         if not name.startswith("_mm_"):
             return NotImplemented
         lanes = lambda v: v.v if isinstance(v, FV) else None
-        if name == "_mm_setzero_ps":
+        if name in ("_mm_setzero_ps", "_mm_setzero_pd"):
             return FV([0.0, 0.0, 0.0, 0.0])
+        # __m128d (two doubles) is kept in lanes 0 and 1 of the same four-lane value; lanes 2, 3 are unused
+        if name == "_mm_cvtps_pd":
+            x = lanes(a[0])
+            return FV([x[0], x[1], 0.0, 0.0])
+        if name == "_mm_add_pd":
+            x, y = lanes(a[0]), lanes(a[1])
+            return FV([x[0] + y[0], x[1] + y[1], 0.0, 0.0])
+        if name in ("_mm_storeu_pd", "_mm_store_pd"):
+            p = a[0]
+            for k in range(2):
+                p.region.write(p.off + k, a[1].v[k])
+            return 0
         if name == "_mm_set_ps":  # _mm_set_ps(e3, e2, e1, e0): lane 0 = last argument
             return FV([a[3], a[2], a[1], a[0]])
         if name in ("_mm_set1_ps", "_mm_load1_ps", "_mm_load_ps1"):
-            v = a[0].region.read(a[0].off) if isinstance(a[0], Ptr) else a[0]
+            v = a[0].region.read(a[0].off) if isinstance(a[0], Ptr) else (a[0].read(0) if isinstance(a[0], AddrOf) else a[0])
             return FV([v, v, v, v])
         if name in ("_mm_load_ps", "_mm_loadu_ps"):
             p = a[0]
@@ -1024,7 +1042,7 @@ class CInterp:
         if ck == "LValueToRValue":
             v = self.rv(x)
             return v
-        if ck in ("NoOp", "FloatingCast", "IntegralToFloating", "ArrayToPointerDecay", "FunctionToPointerDecay",
+        if ck in ("NoOp", "FloatingCast", "IntegralToFloating", "ArrayToPointerDecay", "FunctionToPointerDecay", "BuiltinFnToFnPtr",
                   "ConstructorConversion", "UserDefinedConversion", "BitCast", "DerivedToBase", "UncheckedDerivedToBase"):
             self.dropped.add("cast:" + ck)
             v = self.rv(x) if ck in ("FloatingCast", "IntegralToFloating") else x
